@@ -346,6 +346,33 @@ def main():
             add("header-form", pt, hsrc)
             add("header-form", b"@@\n@@\n-zz()\n+yy()\n\n" + pt, hsrc)            # as the second change
             add("header-form", b"# about\n\n" + pt + b"\n" + (h1 + "\n" + h2 + "\n-bar(1)\n+baz(1)\n").encode("latin-1"), hsrc)
+    # deeply nested code (calls in arguments, composite literals, function literals, blocks), several rewritten sites and
+    # unchanged deep neighbours in one list: time must not explode with the depth
+    def d_unary(d, leaf): return "w(" * d + leaf + ")" * d
+    def d_binary(d, leaf):
+        e = leaf
+        for i in range(d):
+            e = "w(%s, %d)" % (e, i)
+        return e
+    def d_lit(d, leaf):
+        e = leaf
+        for i in range(d):
+            e = "T{A: %s, B: %d}" % (e, i)
+        return e
+    def d_fl(d, leaf):
+        e = "use(%s)" % leaf
+        for i in range(d):
+            e = "func() { a%d(); %s; b%d() }()" % (i, e, i)
+        return e
+    DEEP_PATCH = b"@@\nvar x expression\n@@\n-same(x, x)\n+once(x)\n"
+    pair = ("same(func() { if a { if b { for { switch { case c: go func() { x.y.z(%s) }() } } } } }, "
+            "func() { if a { if b { for { switch { case c: go func() { x.y.z(%s) }() } } } } })")
+    for shape in (d_unary, d_binary, d_lit, d_fl):
+        for top in ((20, 30, 40) if not thorough else (20, 30, 40, 60)):
+            lines = ["same(%s, %s)" % (shape(d, a), shape(d, b)) for d in (2, 8, 14, 17, 20, top) for a, b in (("1", "1"), ("1", "2"), ("alpha", "beta"))]
+            lines += ["check(%s)" % shape(d, l) for d in (14, 20, top) for l in ("alpha", "beta")]
+            lines += [pair % ab for ab in ((1, 1), (1, 2))]
+            add("deep-nesting", DEEP_PATCH, {"a.go": ("package p\n\nfunc h() {\n\t" + "\n\t".join(lines) + "\n}\n").encode()})
     ill = []
     for k in range(len(ILL_TYPED) * (5 if thorough else 2)):
         p, f = ill_typed_case(rng, k)
